@@ -253,6 +253,9 @@ func Tokenize(pw string, ti Indices, entropy float32) (Password, error) {
 		return p, nil
 
 	case FullIndexKind:
+		if len(ti)%2 != 1 {
+			return p, fmt.Errorf("full token index must have a length and a type for each token")
+		}
 		tokens := make([]Token, len(ti)/2)
 
 		prevPos := 0
